@@ -13,7 +13,7 @@ RULE = ("hyp: sequence (N<=60 quick / 120 thorough, all composition classes) x t
         "for each type. Oracle: shape (2, floor((N-w)/s)+1); positions strictly increasing in 1..N; values in [0,1]; locality - value k equals "
         "the single value of the isolated window seq[ks:ks+w] with blobLen=w and is unchanged by mutating residues outside that window; WF = "
         "Shannon entropy (base = alphabet size) of the window after the harness's own alphabet reduction, 0 for homopolymeric windows, "
-        "invariant under permuting the window. Non-trivial: K>=2 and some window with >=2 distinct reduced letters; distinct by the whole case.")
+        "invariant under permuting the window. The profile under test is computed after a generated warm-up history (other API calls incl. complexity / reduction calls with other user alphabets on the same object) in half of the cases. Non-trivial: K>=2 and some window with >=2 distinct reduced letters; distinct by the whole case.")
 ASSUMPTIONS = ["user alphabets have at least two image letters (base-1 entropy is undefined; stated in the property's quantifier)",
                "window, step and word sizes are positive integers", "entropy tolerance 1e-9"]
 TECHNIQUE = "Hypothesis property testing + small exhaustive grid; oracle = shape/range invariants, locality metamorphic relations (isolated window, outside mutation, window permutation), independent Shannon entropy with independently transcribed alphabet partitions"
@@ -28,8 +28,8 @@ def my_reduce(seq, size, user):
     return [ref.group_of(size, r) for r in seq], size
 
 
-def call(seq, case, blob=None, step=None):
-    o = util.sp(seq)
+def call(seq, case, blob=None, step=None, warm=False):
+    o = util.spw(seq, case) if warm else util.sp(seq)
     kw = dict(complexityType=case["type"], alphabetSize=case.get("size", 20), blobLen=blob if blob is not None else case["w"],
               stepSize=step if step is not None else case["s"], wordSize=case.get("word", 3))
     if case.get("user"):
@@ -51,7 +51,7 @@ def check(ctx, case):
     varied = any(len(set(red[k * s:k * s + w])) >= 2 for k in range(K))
     ctx.count(case, nontrivial=(K >= 2 and varied), classes=["type:" + typ, "alphabet:user" if case.get("user") else "alphabet:%d" % case.get("size", 20),
                                                                 "K=1" if K == 1 else "K>=2"])
-    arr = np.asarray(call(seq, case), dtype=float)
+    arr = np.asarray(call(seq, case, warm=True), dtype=float)
     ctx.check(arr.shape == (2, K), "shape", "shape %r, expected (2, %d) for N=%d w=%d s=%d" % (arr.shape, K, N, w, s), case)
     pos, val = arr[0], arr[1]
     ctx.check(all(1 <= p <= N and p == int(p) for p in pos) and all(pos[i] < pos[i + 1] for i in range(K - 1)), "positions",
@@ -142,6 +142,7 @@ def hyp_case(draw, max_len):
     case["s"] = draw(st.one_of(st.integers(1, N), st.sampled_from([1, 1, 2, 3])))
     case["mutate"] = {"k": draw(st.integers(0, 50)), "subs": draw(st.lists(st.tuples(st.integers(0, 500), st.sampled_from(list(ref.AA))).map(list), min_size=1, max_size=4))}
     case["perm_seed"] = draw(st.integers(0, 10 ** 6))
+    case["warm"] = draw(gens.warmups())
     return case
 
 
